@@ -43,6 +43,7 @@ def cells(tier, seed):
                 if tier == "quick" and (n + past + si) % 2 and n > 1 and past > 1:
                     continue
                 out.append({"sig": si, "n": n, "past": past})
+    out.append({"kind": "dtype"})
     return out
 
 
@@ -50,7 +51,42 @@ def exhaustive(tier):
     return tier == "thorough"
 
 
+def _dtype(cfg, cx):
+    """'the step-t prediction appended as the newest': the value fed back is the prediction itself, whatever the storage types
+    of the window and of the prediction (concrete facts about dtype promotion; outside the real-arithmetic solver claims)."""
+    import jax.numpy as jnp
+    import ginjax.geometric as geom
+    import ginjax.ml as ml
+    D, shape, past = 2, (2, 2), 2
+    rng = np.random.default_rng(16)
+    for in_dt, out_dt in (("int32", "float32"), ("float16", "float32"), ("float32", "float32"), ("bfloat16", "float32")):
+        win = {(0, 0): jnp.asarray(rng.integers(-4, 5, size=(2 * past + 1,) + shape), dtype=in_dt),
+               (1, 0): jnp.asarray(rng.integers(-4, 5, size=(1 * past,) + shape + (D,)), dtype=in_dt)}
+        pred = {(0, 0): jnp.asarray(rng.normal(size=(2,) + shape) + 0.37, dtype=out_dt),
+                (1, 0): jnp.asarray(rng.normal(size=(1,) + shape + (D,)) + 0.37, dtype=out_dt)}
+
+        def probe():
+            new = ml.autoregressive_step(geom.MultiImage(dict(win), D, True), geom.MultiImage(dict(pred), D, True), past, {(0, 0): 1})
+            for kp, c in (((0, 0), 2), ((1, 0), 1)):
+                blk = np.asarray(new[kp], dtype=np.float64)
+                dyn = blk[: c * past].reshape((c, past) + blk.shape[1:])
+                want_new = np.asarray(pred[kp], dtype=np.float64)
+                want_old = np.asarray(win[kp], dtype=np.float64)[: c * past].reshape((c, past) + blk.shape[1:])[:, 1:]
+                if not np.array_equal(dyn[:, -1], want_new):
+                    return False, f"window {in_dt}, prediction {out_dt}: the newest step of type {kp} is not the prediction (max deviation {np.max(np.abs(dyn[:, -1] - want_new)):.3g})"
+                if not np.array_equal(dyn[:, :-1], want_old):
+                    return False, f"window {in_dt}, prediction {out_dt}: the kept past steps of type {kp} changed"
+            if not np.array_equal(np.asarray(new[(0, 0)], dtype=np.float64)[-1], np.asarray(win[(0, 0)], dtype=np.float64)[-1]):
+                return False, "the constant field changed"
+            return True, "prediction fed back unchanged"
+        ok, det = probe()
+        cx.structural(f"fed-back value is the prediction [window {in_dt}, prediction {out_dt}]", ok, det,
+                      replay=lambda v, b, probe=probe: (lambda r: (not r[0], r[1]))(probe()), key=f"dtype:{in_dt}:{out_dt}")
+
+
 def run_cell(cfg, cx):
+    if cfg.get("kind") == "dtype":
+        return _dtype(cfg, cx)
     import jax.numpy as jnp
     import ginjax.geometric as geom
     import ginjax.ml as ml
